@@ -6,6 +6,7 @@ import (
 	"encoding/json"
 	"fmt"
 	"io"
+	"net"
 	"net/http"
 	"path/filepath"
 	"sort"
@@ -68,6 +69,10 @@ func c04Gen(r *core.Run, idx int, kind string, n int) *c04History {
 		h.Replies = append(h.Replies, append([]string(nil), ids...))
 	case "relist-until-done": // App Engine style: handled by the fake proxy's Relist mode
 		h.Replies = nil
+	case "upload-fails-then-relisted", "fetch-fails-then-relisted":
+		// driven specially: list once, let every upload (or fetch) attempt fail at connection level, then re-list twice
+		h.Replies = nil
+		h.SlowPct = 0
 	case "relist-after-completion":
 		h.Replies = append(h.Replies, append([]string(nil), ids...), nil) // nil = wait for completion, then relist
 		h.Replies = append(h.Replies, append([]string(nil), ids...))
@@ -101,7 +106,7 @@ func c04Gen(r *core.Run, idx int, kind string, n int) *c04History {
 	return h
 }
 
-var c04Kinds = []string{"repeat-same-reply", "dup-within-reply", "permutations", "overlapping-subsets", "relist-until-done", "relist-after-completion", "one-by-one-then-all"}
+var c04Kinds = []string{"upload-fails-then-relisted", "fetch-fails-then-relisted", "repeat-same-reply", "dup-within-reply", "permutations", "overlapping-subsets", "relist-until-done", "relist-after-completion", "one-by-one-then-all"}
 
 // C04 — each client request is forwarded at most once.
 func C04(r *core.Run) {
@@ -196,7 +201,44 @@ func c04PartA(r *core.Run, agentBin string, md *fakes.Metadata) {
 				w.Write(b)
 				return true
 			}
+			failUp := map[string]bool{}
+			failFetch := map[string]bool{}
+			attempts := map[string]int{}
+			reset := func(w http.ResponseWriter) {
+				if hj, ok := w.(http.Hijacker); ok {
+					if c, _, err := hj.Hijack(); err == nil {
+						if tc, ok := c.(*net.TCPConn); ok {
+							tc.SetLinger(0)
+						}
+						c.Close()
+					}
+				}
+			}
+			px.OnResponse = func(id string, w http.ResponseWriter, req *http.Request) bool {
+				smu.Lock()
+				f := failUp[id]
+				if f {
+					attempts[id]++
+				}
+				smu.Unlock()
+				if !f {
+					return false
+				}
+				io.CopyN(io.Discard, req.Body, 64)
+				reset(w)
+				return true
+			}
 			px.OnFetch = func(id string, w http.ResponseWriter, req *http.Request) bool {
+				smu.Lock()
+				ff := failFetch[id]
+				if ff {
+					attempts[id]++
+				}
+				smu.Unlock()
+				if ff {
+					reset(w)
+					return true
+				}
 				smu.Lock()
 				s := slow[id]
 				smu.Unlock()
@@ -229,6 +271,60 @@ func c04PartA(r *core.Run, agentBin string, md *fakes.Metadata) {
 						smu.Unlock()
 					}
 					_ = i
+				}
+				if h.Shape == "upload-fails-then-relisted" || h.Shape == "fetch-fails-then-relisted" {
+					smu.Lock()
+					for _, id := range h.IDs {
+						if h.Shape == "upload-fails-then-relisted" {
+							failUp[id] = true
+						} else {
+							failFetch[id] = true
+						}
+					}
+					waitFor = nil
+					script = [][]string{append([]string(nil), h.IDs...)}
+					smu.Unlock()
+					// wait until all three attempts of every ID have failed (bounded)
+					for i := 0; i < 1500; i++ {
+						smu.Lock()
+						done := true
+						for _, id := range h.IDs {
+							if attempts[id] < 3 {
+								done = false
+							}
+						}
+						smu.Unlock()
+						if done {
+							break
+						}
+						time.Sleep(10 * time.Millisecond)
+					}
+					time.Sleep(100 * time.Millisecond)
+					smu.Lock()
+					script = [][]string{append([]string(nil), h.IDs...), append([]string(nil), h.IDs...)}
+					smu.Unlock()
+					for i := 0; i < 400; i++ {
+						smu.Lock()
+						n := len(script)
+						smu.Unlock()
+						if n == 0 {
+							break
+						}
+						time.Sleep(10 * time.Millisecond)
+					}
+					time.Sleep(400 * time.Millisecond)
+					count := map[string]int{}
+					for _, sn := range backend.Seen() {
+						count[sn.Tok]++
+					}
+					for _, id := range h.IDs {
+						if c := count[id]; c > 1 {
+							r.Violate("C04:forwarded-more-than-once:"+h.Shape, fmt.Sprintf("history %s: request %s reached the backend %d times (it was re-listed after all of its %s attempts had failed at connection level)", h.Name, id, c, strings.SplitN(h.Shape, "-", 2)[0]), h, map[string]interface{}{"fetches": px.Fetches(id)})
+						}
+					}
+					r.Case(fmt.Sprintf("A|%s|n=%s", h.Shape, c04SizeClass(len(h.IDs))))
+					r.Add("ids_listed_part_a", len(h.IDs))
+					continue
 				}
 				if h.Shape == "relist-until-done" {
 					px.Relist = true
